@@ -181,17 +181,20 @@ Section Outline.
   Notation run := (run O W LS Call Res E begin prog ret env).
 
   Variable P : O -> Prop.
+  Variable Wi : W -> Prop.            (* what is known about every world state of the run *)
   Variable Qp : LS -> list (mstep O W LS) -> Prop.
   Variable Rr : Res -> Prop.
-  Hypothesis q_begin : forall c, Qp (begin c) (prog c).
+  Variable Cok : Call -> Prop.        (* what is known about every call that is issued *)
+  Hypothesis q_begin : forall c, Cok c -> Qp (begin c) (prog c).
   Hypothesis q_acq : forall l rest, Qp l (Acq :: rest) -> Qp l rest.
   Hypothesis q_rel : forall l rest, Qp l (Rel :: rest) -> Qp l rest.
-  Hypothesis q_step : forall f l rest o w l' o', P o -> Qp l (Step f :: rest) -> f l o w = (l', o') -> P o' /\ Qp l' rest.
+  Hypothesis q_step : forall f l rest o w l' o', P o -> Wi w -> Qp l (Step f :: rest) -> f l o w = (l', o') -> P o' /\ Qp l' rest.
   Hypothesis q_end : forall l, Qp l [] -> Rr (ret l).
 
   Record OInv (s : mst) : Prop := {
     o_obj : P (obj s);
-    o_thr : forall t, In t (threads s) -> (pcl t <> [] -> Qp (ls t) (pcl t)) /\ Forall Rr (res t)
+    o_thr : forall t, In t (threads s) ->
+            (pcl t <> [] -> Qp (ls t) (pcl t)) /\ Forall Rr (res t) /\ Forall Cok (todo t)
   }.
 
   Lemma in_upd {A} (l : list A) i a x : In x (upd i a l) -> x = a \/ In x l.
@@ -202,23 +205,24 @@ Section Outline.
   Qed.
 
   Lemma finish_ok (t : thread O W LS Call Res) l rest :
-    Qp l rest -> Forall Rr (res t) ->
+    Qp l rest -> Forall Rr (res t) -> Forall Cok (todo t) ->
     let t' := finish O W LS Call Res ret t l rest in
-    (pcl t' <> [] -> Qp (ls t') (pcl t')) /\ Forall Rr (res t').
+    (pcl t' <> [] -> Qp (ls t') (pcl t')) /\ Forall Rr (res t') /\ Forall Cok (todo t').
   Proof.
-    intros Hq Hr. destruct rest as [|m rest]; cbn.
-    - split; [congruence|]. apply Forall_app. split; auto.
+    intros Hq Hr Hc. destruct rest as [|m rest]; cbn.
+    - split; [congruence|]. split; [apply Forall_app; split; auto|].
+      destruct (todo t); cbn; auto. inversion Hc; auto.
     - split; auto.
   Qed.
 
-  Theorem oinv_tstep s i s' : OInv s -> tstep s i = Some s' -> OInv s'.
+  Theorem oinv_tstep s i s' : OInv s -> Wi (world s) -> tstep s i = Some s' -> OInv s'.
   Proof.
-    intros [Ho Ht] Hs. unfold Machine.tstep in Hs.
+    intros [Ho Ht] Hw Hs. unfold Machine.tstep in Hs.
     destruct (nth_error (threads s) i) as [t|] eqn:Hi; [|discriminate].
-    pose proof (Ht t (nth_error_In _ _ Hi)) as [Hq Hr].
+    pose proof (Ht t (nth_error_In _ _ Hi)) as (Hq & Hr & Hck).
     assert (Hcur : forall l p, cur_prog O W LS Call Res begin prog t = Some (l, p) -> Qp l p).
     { unfold cur_prog. intros l p. destruct (pcl t) eqn:Ep.
-      - destruct (todo t); [discriminate|]. intros H. injection H as <- <-. apply q_begin.
+      - destruct (todo t); [discriminate|]. intros H. injection H as <- <-. apply q_begin. inversion Hck; auto.
       - intros H. injection H as <- <-. apply Hq. discriminate. }
     destruct (cur_prog O W LS Call Res begin prog t) as [[l [|m rest]]|] eqn:Ec; [| |discriminate].
     - injection Hs as <-. split; cbn [obj threads]; auto.
@@ -230,22 +234,56 @@ Section Outline.
       + injection Hs as <-. split; cbn [obj threads]; auto.
         intros t' Hin. apply in_upd in Hin. destruct Hin as [->|Hin]; auto. apply finish_ok; auto.
       + destruct (f l (obj s) (world s)) as [l' o'] eqn:Ef. injection Hs as <-.
-        destruct (q_step _ _ _ _ _ _ _ Ho Hcur Ef) as [Ho' Hq'].
+        destruct (q_step _ _ _ _ _ _ _ Ho Hw Hcur Ef) as [Ho' Hq'].
         split; cbn [obj threads]; auto.
         intros t' Hin. apply in_upd in Hin. destruct Hin as [->|Hin]; auto. apply finish_ok; auto.
   Qed.
 
-  Theorem oinv_run sch : forall s, OInv s -> OInv (run s sch).
+  (* every world state along the schedule satisfies Wi *)
+  Definition worlds_ok (s : mst) (sch : list (choice E)) : Prop :=
+    forall p q, sch = p ++ q -> Wi (world (run s p)).
+
+  Theorem oinv_run sch : forall s, OInv s -> worlds_ok s sch -> OInv (run s sch).
   Proof.
-    induction sch as [|ch r IH]; intros s HI; cbn; auto.
-    destruct (step s ch) eqn:Es; auto. apply IH. destruct ch as [i|e]; cbn [Machine.step] in Es.
-    - eapply oinv_tstep; eauto.
-    - injection Es as <-. destruct HI as [Ho Ht]. split; cbn [obj threads]; auto.
+    induction sch as [|ch r IH]; intros s HI Hw; cbn; auto.
+    assert (Hw0 : Wi (world s)) by (apply (Hw [] (ch :: r)); reflexivity).
+    destruct (step s ch) as [s'|] eqn:Es.
+    - apply IH.
+      + destruct ch as [i|e]; cbn [Machine.step] in Es.
+        * eapply oinv_tstep; eauto.
+        * injection Es as <-. destruct HI as [Ho Ht]. split; cbn [obj threads]; auto.
+      + intros p q Er. specialize (Hw (ch :: p) q). cbn in Hw. rewrite Es in Hw. apply Hw. now rewrite Er.
+    - apply IH; auto.
+      intros p q Er. specialize (Hw (ch :: p) q). cbn in Hw. rewrite Es in Hw. apply Hw. now rewrite Er.
   Qed.
 
-  Lemma oinv_init ls0 o w calls : P o -> OInv (init O W LS Call Res ls0 o w calls).
+  Lemma oinv_init ls0 o w calls : P o -> Forall (Forall Cok) calls -> OInv (init O W LS Call Res ls0 o w calls).
   Proof.
-    intros Ho. split; cbn [obj threads Machine.init]; auto.
-    intros t Hin. apply in_map_iff in Hin. destruct Hin as (cs & <- & _). cbn. split; [congruence|constructor].
+    intros Ho Hc. split; cbn [obj threads Machine.init]; auto.
+    intros t Hin. apply in_map_iff in Hin. destruct Hin as (cs & <- & Hcs). cbn.
+    split; [congruence|]. split; [constructor|]. rewrite Forall_forall in Hc. auto.
+  Qed.
+
+  (* thread steps do not touch the world: it is the fold of the environment events so far *)
+  Lemma tstep_world s i s' : tstep s i = Some s' -> world s' = world s.
+  Proof.
+    unfold Machine.tstep. destruct (nth_error (threads s) i) as [t|]; [|discriminate].
+    destruct (cur_prog O W LS Call Res begin prog t) as [[l [|m rest]]|]; [| |discriminate].
+    - intros H. injection H as <-. reflexivity.
+    - destruct m as [| |f].
+      + destruct (lock s); [discriminate|]. intros H. injection H as <-. reflexivity.
+      + intros H. injection H as <-. reflexivity.
+      + destruct (f l (obj s) (world s)). intros H. injection H as <-. reflexivity.
+  Qed.
+
+  Definition envs_in (sch : list (choice E)) : list E :=
+    flat_map (fun ch => match ch with Ev e => [e] | T _ => [] end) sch.
+
+  Lemma world_run sch : forall s, world (run s sch) = fold_left (fun w e => env e w) (envs_in sch) (world s).
+  Proof.
+    induction sch as [|ch r IH]; intros s; cbn; auto.
+    destruct ch as [i|e]; cbn [Machine.step].
+    - destruct (tstep s i) as [s'|] eqn:Es; cbn; rewrite IH; [rewrite (tstep_world _ _ _ Es)|]; reflexivity.
+    - cbn. rewrite IH. reflexivity.
   Qed.
 End Outline.
